@@ -3,11 +3,12 @@
    nowhere else, and no token starts or ends because of it. What the validators admit is tied to these classes by the
    harness (every accepted value of every string leaf is classified); hostile values are handled by C04/Check.v. *)
 From Coq Require Import List String Ascii Bool.
-From NGF Require Import lib.Str ngx.Lexer ngx.Tmpl ngx.SymLex ngx.SymLexProofs ngx.TmplProofs ngx.TmplTheorems.
+From NGF Require Import lib.Str ngx.Lexer ngx.Tmpl ngx.SymLex ngx.SymLexProofs ngx.TmplProofs ngx.TmplTheorems ngx.Regex
+  gen.Validators C04.Valid C04.ValidProofs.
 Import ListNotations.
 
 Theorem C04_no_injection_within_classes :
-  forall (t : list node) (d : value) (cls : nat -> bool) (chunks : list chunk),
+  forall (t : list node) (d : value) (cls : list nat) (chunks : list chunk),
     run t d = Some chunks ->
     forall sg : nat -> string,
       (forall id, sg id <> ""%string) ->
@@ -33,3 +34,25 @@ Theorem C04_token_skeleton_independent_of_contents : forall xs sg1 sg2,
   | _, _ => False
   end.
 Proof. exact lex_independent_of_holes. Qed.
+
+(* ---------------------------------------------------------------- the validators (models of nginx/config/validation on the
+   regenerated regular expressions; compared with the real validators by TestVerifValid) deliver those classes *)
+
+(* a path a validator accepts is absorbed whole by an unquoted argument position *)
+Theorem C04_accepted_path_is_bare_safe : forall p, p <> [] -> validate_path p = true -> bare_ok p = true.
+Proof. exact valid_path_is_bare_safe. Qed.
+
+(* a header value / hostname / span attribute a validator accepts is absorbed whole by a double-quoted position *)
+Theorem C04_accepted_escaped_string_is_quote_safe : forall s, validate_escaped_novar s = true -> dq_ok s = true.
+Proof. exact valid_escaped_novar_is_dq_safe. Qed.
+
+(* names, sizes, durations, endpoints and header names a validator accepts are non-empty plain strings *)
+Theorem C04_accepted_plain_values : forall s,
+  (validate_alphanumeric s = true \/ validate_duration s = true \/ validate_size s = true \/
+   validate_endpoint s = true \/ validate_header_name s = true) ->
+  s <> [] /\ all_plain s = true.
+Proof. exact valid_plain_values. Qed.
+
+(* the derivative matcher used by the models decides regular-expression matching *)
+Theorem C04_regex_matcher_correct : forall r s, rmatch r s = true <-> matches r s.
+Proof. intros r s. split; [apply rmatch_matches|apply matches_rmatch]. Qed.
